@@ -1,17 +1,22 @@
 import RichModel.Lemmas.SyntaxTraceback
 import RichModel.Lemmas.SyntaxHistory
+import RichModel.Lemmas.SyntaxStyles
 /-
 Property C17 — Syntax and tracebacks show the source line for line under the right numbers.
 
 Everything below is about the executable model `RichModel.Syntax` (Model/Syntax.lean), for an ARBITRARY
 lexer `lex` that meets the contract "the token texts concatenate to Pygments' preprocessing of the code it
 was handed", an arbitrary cell-width function `cw`, and sources / widths / ranges of any size.
-The theorems are stated for the REPAIRED variant (`stripnl = false`, `skipRaises = false`), which is what /repo
-contains now (`fix:` commits 92fb879, 1d638e8); the `old_…` witnesses show that the variant of rich 9.10.0 as found
-(`stripnl = true`, `skipRaises = true`) violates them.
+The theorems are stated for the REPAIRED variant (`stripnl = false`, `skipRaises = false`, `rangePop = false`):
+the first two are what /repo contains now (`fix:` commits 92fb879, 1d638e8), the third is pending
+(pending_fixes/C17-range-drops-trailing-blank-line.diff); the `old_…` witnesses show that the variants of rich
+9.10.0 as found (`= true`) violate them.
 
 Vocabulary (Lemmas/Syntax*.lean):
-  `splitNL s`            the source lines (`s.split("\n")`),
+  `splitNL s`            `s.split("\n")`,
+  `srcLines s`           the source lines as a reader counts them: `s.split("\n")` without the empty string a final
+                         newline leaves behind,
+  `shownCode o code`     the text that is shown: `textwrap.dedent(code)` when `dedent` is on, else `code`,
   `expandTabs ts code`   `code.expandtabs(ts)`,
   `Trail n D P`          `D` is `P` except that at most `n` EMPTY lines are missing at the very end,
   `expectedLines r P`    all of `P`, or lines `a..b` of `P` (1-based, clipped to the lines that exist),
@@ -21,17 +26,22 @@ Vocabulary (Lemmas/Syntax*.lean):
 namespace RichModel.C17
 open RichModel RichModel.Syntax
 
-/-- The hypotheses shared by the theorems: a clean source (no BS/VT/FF/CR, no byte-order mark), the lexer
-contract at this source, indent guides off, and a non-negative range end. -/
+/-- The hypotheses shared by the theorems: a clean shown text (no BS/VT/FF/CR, no byte-order mark), the lexer
+contract at it, indent guides off (they have their own theorem), a non-negative range end, room to write a row
+when word wrap is on, and `dedent` not adding newlines (it never does). -/
 structure Setting (o : Opts) (found : Bool) (lex : List Char → List Line) (code : List Char) : Prop where
-  clean : Clean code
-  contract : found = true → (lex (expandTabs o.tabSize code)).flatten = pygPre false (expandTabs o.tabSize code)
+  clean : Clean (shownCode o code)
+  contract : found = true → (lex (expandTabs o.tabSize (shownCode o code))).flatten = pygPre false (expandTabs o.tabSize (shownCode o code))
   noGuides : (o.indentGuides && !o.asciiOnly) = false
   rangeEnd : ∀ a b, o.lineRange = some (a, b) → 0 ≤ b
+  room : (o.wordWrap && decide (codeWidthInt o code < 1)) = false
+  dedentNL : countNL (shownCode o code) ≤ countNL code
 
 /-- The code column's width and crop switch, as `__rich_console__` computes them. -/
 abbrev colWidth (o : Opts) (code : List Char) : Nat := (codeWidthInt o code).toNat
 abbrev noCrop (o : Opts) : Bool := !o.wordWrap && o.optNoWrap
+/-- the tab-expanded text that is shown -/
+abbrev shownSrc (o : Opts) (code : List Char) : List Char := expandTabs o.tabSize (shownCode o code)
 
 /-! ## Highlighting never changes the characters of the code -/
 
@@ -64,55 +74,75 @@ theorem highlighting_keeps_characters (found : Bool) (toks : List Line) (src : L
       cases h
       rw [hflat]
 
+/-! ## Highlighting gives every character the style of its token -/
+
+/-- For every token stream (texts with opaque style ids, as the lexer and the theme deliver them) and every range:
+the styled text has exactly the characters of `highlight`; without a lexer no character carries a token style; with
+a lexer every character carries the style of the token it came from, except that the lines BEFORE line `a` of a range
+`(a, b)` are left unstyled (`specStyle`: the reference walk over the token characters).  This is what a change of
+`_line_start`, of the token/style pairing or of the piece splitting would break. -/
+theorem highlight_styles_follow_tokens (found : Bool) (toks : List (Line × StyleId)) (src : List Char)
+    (range : Option (Int × Int)) :
+    ∃ st, highlightStyled false found toks src range = .ok st ∧
+      highlight false found (toks.map Prod.fst) src range = .ok (st.map Prod.fst) ∧
+      (found = false → ∀ p ∈ st, p.2 = none) ∧
+      (found = true → st <+: specStyle (match range with | some (a, _) => (a - 1).toNat | none => 0) 0 (tokChars toks)) :=
+  highlightStyled_spec found toks src range
+
 /-! ## The selected lines are the source lines -/
 
-/-- Range selection, full strength: with line numbers shown, the rows are numbered consecutively from
-`start_line + max(0, a-1)` and show — each fitted into the code column — exactly lines `a..b` of the
-tab-expanded source clipped to the lines that exist (all lines without a range), except that up to two EMPTY
-lines at the very end of that selection may be missing.  The error branch is excluded: the repaired code
-returns rows for every range. -/
+/-- Range selection, full strength: with line numbers shown and a range `(a, b)`, the rows are numbered
+consecutively from `start_line + max(0, a-1)` and show — each fitted into the code column — EXACTLY lines `a..b`
+of the tab-expanded source, clipped to the lines that exist.  No allowance: a blank line that ends the range is
+shown like any other.  The error branch is excluded: the repaired code returns rows for every range. -/
 theorem range_selects_clipped (cw : Char → Nat) (o : Opts) (found : Bool) (lex : List Char → List Line)
+    (code : List Char) (h : Setting o found lex code) (a b : Int) (hr : o.lineRange = some (a, b)) :
+    numberedRows cw false false o found lex code =
+      .ok (numberRows (o.startLine + (a - 1).toNat) o.highlightLines
+            ((((srcLines (shownSrc o code)).take b.toNat).drop (a - 1).toNat).map
+              (fitLine cw (colWidth o code) o.pad (noCrop o)))) := by
+  obtain ⟨sel, hs, _, hsome⟩ := selected_exact o found lex code h.clean h.contract h.noGuides h.rangeEnd
+  have hoff : lineOffset o = (a - 1).toNat := by simp [lineOffset, hr]
+  simp only [numberedRows, hs, h.room, Bool.false_eq_true, if_false, hoff, hsome a b hr]
+
+/-- Without a range, numbered: the rows show the source lines in order from the first, numbered from
+`start_line`; only ONE empty line at the very end of the source may be missing. -/
+theorem lines_are_source_lines (cw : Char → Nat) (o : Opts) (found : Bool) (lex : List Char → List Line)
+    (code : List Char) (h : Setting o found lex code) (hr : o.lineRange = none) :
+    ∃ sel, Trail 1 sel (srcLines (shownSrc o code)) ∧
+      numberedRows cw false false o found lex code =
+        .ok (numberRows o.startLine o.highlightLines (sel.map (fitLine cw (colWidth o code) o.pad (noCrop o)))) := by
+  obtain ⟨sel, hs, hnone, _⟩ := selected_exact o found lex code h.clean h.contract h.noGuides h.rangeEnd
+  have hoff : lineOffset o = 0 := by simp [lineOffset, hr]
+  exact ⟨sel, hnone hr, by simp only [numberedRows, hs, h.room, Bool.false_eq_true, if_false, hoff, Nat.add_zero]⟩
+
+/-- Both cases in the form the numbering and gutter theorems use: the rows are the expected slice of
+`source.split("\n")`, numbered from `start_line + offset`, up to at most two empty strings at the very end (the one
+a final newline leaves behind, and — only without a range — one empty last line). -/
+theorem rows_are_numbered_selection (cw : Char → Nat) (o : Opts) (found : Bool) (lex : List Char → List Line)
     (code : List Char) (h : Setting o found lex code) :
-    ∃ sel, Trail 2 sel (expectedLines o.lineRange (splitNL (expandTabs o.tabSize code))) ∧
-      numberedRows cw false o found lex code =
+    ∃ sel, Trail 2 sel (expectedLines o.lineRange (splitNL (shownSrc o code))) ∧
+      numberedRows cw false false o found lex code =
         .ok (numberRows (o.startLine + lineOffset o) o.highlightLines
               (sel.map (fitLine cw (colWidth o code) o.pad (noCrop o)))) := by
   obtain ⟨sel, hs, ht⟩ := selected_trail o found lex code h.clean h.contract h.noGuides h.rangeEnd
-  exact ⟨sel, ht, by simp [numberedRows, hs]⟩
+  exact ⟨sel, ht, by simp only [numberedRows, hs, h.room, Bool.false_eq_true, if_false]⟩
 
-/-- Without a range, numbered: the rows show the source lines in order from the first, numbered from
-`start_line`; only empty lines at the very end of the source (at most two) are not shown. -/
-theorem lines_are_source_lines (cw : Char → Nat) (o : Opts) (found : Bool) (lex : List Char → List Line)
-    (code : List Char) (h : Setting o found lex code) (hr : o.lineRange = none) :
-    ∃ sel, Trail 2 sel (splitNL (expandTabs o.tabSize code)) ∧
-      numberedRows cw false o found lex code =
-        .ok (numberRows o.startLine o.highlightLines (sel.map (fitLine cw (colWidth o code) o.pad (noCrop o)))) := by
-  obtain ⟨sel, ht, he⟩ := range_selects_clipped cw o found lex code h
-  refine ⟨sel, by simpa [hr, expectedLines] using ht, ?_⟩
-  have : lineOffset o = 0 := by simp [lineOffset, hr]
-  simpa [this] using he
-
-/-- Without line numbers and without a range: the rows are the source lines in order, each fitted; only one
-empty line at the very end (the one a final newline creates) may be missing. -/
+/-- Without line numbers and without a range (and with room to write): the rows are exactly the source lines in
+order, each fitted. -/
 theorem plain_lines_are_source_lines (cw : Char → Nat) (o : Opts) (found : Bool) (lex : List Char → List Line)
-    (code : List Char) (h : Setting o found lex code) (hr : o.lineRange = none) :
-    ∃ sel, Trail 1 sel (splitNL (expandTabs o.tabSize code)) ∧
-      plainRows cw false o found lex code = .ok (sel.map (fitLine cw (colWidth o code) o.pad false)) := by
-  obtain ⟨L, m, text, hne, hno, htr, _, hhl, _, hrs, hm, hnone, _⟩ :=
-    highlight_lines found (lex (expandTabs o.tabSize code)) (expandTabs o.tabSize code) o.lineRange
-      (h.clean.expandTabs o.tabSize) h.contract
-  have hL : L.take m = L := List.take_of_length_le (hnone hr)
-  refine ⟨L, htr, ?_⟩
+    (code : List Char) (h : Setting o found lex code) (hr : o.lineRange = none) (hw : 1 ≤ codeWidthInt o code) :
+    plainRows cw false o found lex code =
+      .ok ((srcLines (shownSrc o code)).map (fitLine cw (colWidth o code) o.pad false)) := by
+  have hcl := h.clean.expandTabs o.tabSize
+  obtain ⟨m, text, hhl, _, hrs, hm, hnone, _⟩ :=
+    highlight_lines found (lex (shownSrc o code)) (shownSrc o code) o.lineRange hcl h.contract
+  obtain ⟨hne, hno, _, _⟩ := ensureNL_srcLines (shownSrc o code)
+  have hL : (srcLines (shownSrc o code)).take m = srcLines (shownSrc o code) := List.take_of_length_le (hnone hr)
+  have hnw : ¬ codeWidthInt o code < 1 := by omega
   unfold plainRows
-  simp only [hhl]
-  rw [hrs, hL]
-  -- remove_suffix of the terminated lines, split with blanks allowed, gives the lines back
-  obtain ⟨M0, x, rfl⟩ : ∃ M0 x, L = M0 ++ [x] := ⟨L.dropLast, L.getLast hne, (List.dropLast_concat_getLast hne).symm⟩
-  have e1 : unlinesT (M0 ++ [x]) = (unlinesT M0 ++ x) ++ ['\n'] := by simp [unlinesT_append]
-  rw [e1, removeSuffixNL_append_nl]
-  unfold textSplit
-  rw [splitNL_unlinesT_append M0 x (fun l hl => hno l (by simp [hl])) (hno x (by simp))]
-  simp
+  simp only [hhl, hnw, decide_false, Bool.false_eq_true, if_false]
+  rw [hrs, hL, textSplit_allow_unlinesT _ hne hno, map_stripCtl_id (srcLines_clean hcl)]
 
 /-- A line that fits the code column is shown exactly, followed by padding spaces only; a longer line is what
 `set_cell_size` leaves of it (by C13's `setCellSize_exact`: a prefix, plus one space when a wide character
@@ -129,12 +159,12 @@ theorem fitted_line_is_line (cw : Char → Nat) (w : Nat) (pad nc : Bool) (l : L
 (counting the first source line as `start_line`), and is marked exactly when its number is in `highlight_lines`. -/
 theorem numbers_are_line_numbers (cw : Char → Nat) (o : Opts) (found : Bool) (lex : List Char → List Line)
     (code : List Char) (h : Setting o found lex code) :
-    ∃ rows, numberedRows cw false o found lex code = .ok rows ∧
+    ∃ rows, numberedRows cw false false o found lex code = .ok rows ∧
       ∀ r ∈ rows, o.startLine ≤ r.num ∧
-        (∃ l, (splitNL (expandTabs o.tabSize code))[r.num - o.startLine]? = some l ∧
+        (∃ l, (splitNL (shownSrc o code))[r.num - o.startLine]? = some l ∧
               r.body = fitLine cw (colWidth o code) o.pad (noCrop o) l) ∧
         r.marked = o.highlightLines.contains r.num := by
-  obtain ⟨sel, ht, he⟩ := range_selects_clipped cw o found lex code h
+  obtain ⟨sel, ht, he⟩ := rows_are_numbered_selection cw o found lex code h
   refine ⟨_, he, ?_⟩
   intro r hr
   obtain ⟨i, hi, hnum, hbody, hmark⟩ := numberRows_mem hr
@@ -150,7 +180,7 @@ theorem numbers_are_line_numbers (cw : Char → Nat) (o : Opts) (found : Bool) (
   | none => simp [expectedLines, lineOffset, hrng]
   | some ab =>
     obtain ⟨a, b⟩ := ab
-    have hlt : i < (expectedLines o.lineRange (splitNL (expandTabs o.tabSize code))).length :=
+    have hlt : i < (expectedLines o.lineRange (splitNL (shownSrc o code))).length :=
       Nat.lt_of_lt_of_le hi ht.length_le
     simp only [expectedLines, hrng, List.length_drop, List.length_take] at hlt
     simp only [expectedLines, lineOffset, hrng, List.getElem?_drop]
@@ -162,7 +192,7 @@ theorem numbers_are_line_numbers (cw : Char → Nat) (o : Opts) (found : Bool) (
 have a gutter of exactly `numbers_column_width + 1` characters, and removing it leaves the code cell. -/
 theorem gutter_wide_enough (cw : Char → Nat) (o : Opts) (found : Bool) (lex : List Char → List Line)
     (code : List Char) (h : Setting o found lex code) (hn : o.lineNumbers = true) :
-    ∃ rows, numberedRows cw false o found lex code = .ok rows ∧
+    ∃ rows, numberedRows cw false false o found lex code = .ok rows ∧
       ∀ r ∈ rows, (natStr r.num).length + 2 ≤ numbersColumnWidth o code ∧
         (r.render (numbersColumnWidth o code) o.legacyWindows).length = numbersColumnWidth o code + 1 + r.body.length ∧
         (r.render (numbersColumnWidth o code) o.legacyWindows).drop (numbersColumnWidth o code + 1) = r.body := by
@@ -170,11 +200,12 @@ theorem gutter_wide_enough (cw : Char → Nat) (o : Opts) (found : Bool) (lex : 
   refine ⟨rows, he, ?_⟩
   intro r hr
   obtain ⟨hge, ⟨l, hl, _⟩, _⟩ := hall r hr
-  have hlt : r.num - o.startLine < (splitNL (expandTabs o.tabSize code)).length := by
-    rcases Nat.lt_or_ge (r.num - o.startLine) (splitNL (expandTabs o.tabSize code)).length with h1 | h1
+  have hlt : r.num - o.startLine < (splitNL (shownSrc o code)).length := by
+    rcases Nat.lt_or_ge (r.num - o.startLine) (splitNL (shownSrc o code)).length with h1 | h1
     · exact h1
     · rw [List.getElem?_eq_none h1] at hl; cases hl
   rw [length_splitNL, countNL_expandTabs] at hlt
+  have hde := h.dedentNL
   have hle : r.num ≤ o.startLine + countNL code := by omega
   have hw : (natStr r.num).length + 2 ≤ numbersColumnWidth o code := by
     have := natStr_length_mono _ _ hle
@@ -182,15 +213,56 @@ theorem gutter_wide_enough (cw : Char → Nat) (o : Opts) (found : Bool) (lex : 
     omega
   exact ⟨hw, Row.render_shape _ _ r hw⟩
 
+/-! ## `__rich_measure__` (the C09 clause "rendering at the reported maximum fits") -/
+
+/-- Without line numbers the clause holds: every row takes at most `code_width` cells, which is the reported maximum when
+`code_width` is given, and one less than it otherwise. -/
+theorem measure_maximum_fits_without_numbers (cw : Char → Nat) (hsp : cw ' ' = 1) (h2 : ∀ c, cw c ≤ 2)
+    (o : Opts) (found : Bool) (lex : List Char → List Line) (code : List Char) (hn : o.lineNumbers = false)
+    (rows : List Line) (hr : plainRows cw false o found lex code = .ok rows) :
+    ∀ r ∈ rows, cellLen cw r ≤ (measure o code o.maxWidth).2 := by
+  intro r hrow
+  unfold plainRows at hr
+  cases hh : highlight false found (lex (expandTabs o.tabSize (shownCode o code))) (expandTabs o.tabSize (shownCode o code)) o.lineRange with
+  | error e => simp only [hh] at hr; cases hr
+  | ok text =>
+    simp only [hh] at hr
+    by_cases hlt : decide (codeWidthInt o code < 1) = true
+    · simp only [hlt, if_true] at hr
+      cases hr; cases hrow
+    · simp only [hlt, Bool.false_eq_true, if_false] at hr
+      cases hr
+      obtain ⟨l, _, rfl⟩ := List.mem_map.mp hrow
+      have hle := fitLine_cellLen_le cw hsp h2 (codeWidthInt o code).toNat o.pad l
+      have hncw : numbersColumnWidth o code = 0 := by simp [numbersColumnWidth, hn]
+      unfold Syntax.measure
+      cases hc : o.codeWidth with
+      | some w => simp only [codeWidthInt, hc, hncw] at hle ⊢; omega
+      | none => simp only [codeWidthInt, hc, hncw] at hle ⊢; omega
+
+/-- With line numbers and an explicit `code_width` the clause FAILS: the reported maximum `code_width + numbers_column_width`
+forgets the blank that follows the number, so every row whose code cell is full (every padded row, every line at least
+`code_width` long) is one character longer than the maximum.  (C09's subject; recorded here because the row shape is C17's.) -/
+theorem measure_maximum_one_short_with_numbers (cw : Char → Nat) (o : Opts) (found : Bool) (lex : List Char → List Line)
+    (code : List Char) (h : Setting o found lex code) (hn : o.lineNumbers = true) (w : Nat) (hw : o.codeWidth = some w) :
+    ∃ rows, numberedRows cw false false o found lex code = .ok rows ∧
+      ∀ r ∈ rows, w ≤ r.body.length →
+        (measure o code o.maxWidth).2 < (r.render (numbersColumnWidth o code) o.legacyWindows).length := by
+  obtain ⟨rows, he, hall⟩ := gutter_wide_enough cw o found lex code h hn
+  refine ⟨rows, he, ?_⟩
+  intro r hr hlen
+  rw [(hall r hr).2.1]
+  simp only [Syntax.measure, hw]
+  omega
+
 /-! ## Indent guides only overdraw leading spaces -/
 
-/-- `indent_guides` (for `tab_size ≥ 1`, any list of newline-free lines): never an error; the result has no
-new and no moved line; a non-blank line keeps its length and everything after its leading spaces, and inside the
-leading spaces only guide characters appear; a blank line shows spaces and guides only; the only lines that can
-disappear are blank lines at the end of the selection.  (An EMPTY selection is shown as one empty row — quirk of
-`Text("\n").join([]).split("\n") == [""]`, visible in `length_le`.) -/
+/-- `indent_guides` (repaired variant, `tab_size ≥ 1`, any list of newline-free lines): never an error; as many
+lines out as in, each at its place (an empty selection stays empty, a blank line that ends the selection stays);
+a non-blank line keeps its length and everything after its leading spaces, and inside the leading spaces only
+guide characters appear; a blank line shows spaces and guides only. -/
 theorem guides_only_overdraw_indent (ts : Nat) (hts : 1 ≤ ts) (lines : List Line) (hno : ∀ l ∈ lines, '\n' ∉ l) :
-    ∃ out, indentGuides ts lines = .ok out ∧ GuideRel lines out :=
+    ∃ out, indentGuides false ts lines = .ok out ∧ GuideRel lines out :=
   indentGuides_spec ts hts lines hno
 
 /-! ## Tracebacks mark the failing line -/
@@ -206,25 +278,27 @@ theorem traceback_marks_failing_line (cw : Char → Nat) (lineno extra : Nat) (w
     (hlex : found = true → (lex (expandTabs 4 code)).flatten = pygPre false (expandTabs 4 code))
     (hpos : 1 ≤ lineno) (hline : (splitNL (expandTabs 4 code))[lineno - 1]? = some l) (hl : ¬ Blank l) :
     let o := tracebackOpts lineno extra wordWrap guides maxWidth nw lw asc pad
-    ∃ rows g, numberedRows cw false o found lex code = .ok rows ∧
+    ∃ rows g, numberedRows cw false false o found lex code = .ok rows ∧
       rows.filter (·.marked) = [{ num := lineno, marked := true, body := fitLine cw 88 pad (noCrop o) g }] ∧
       (if guides && !asc then GuideOf l g else g = l) := by
   intro o
   have hne : l ≠ [] := fun e => hl (e ▸ blank_nil)
   obtain ⟨sel, hs, hno, hle, hsel⟩ :=
     traceback_selected lineno extra wordWrap maxWidth nw lw asc pad found lex code l hclean hlex hpos hline hne
-  have hsl := selectedLines_guides false o found lex code
+  have hsl := selectedLines_guides false false o found lex code
   have ho0 : ({ o with indentGuides := false } : Opts) = tracebackOpts lineno extra wordWrap false maxWidth nw lw asc pad := rfl
   rw [ho0, hs] at hsl
   have hoff : lineOffset o = ((lineno : Int) - extra - 1).toNat := by simp [o, tracebackOpts, lineOffset]
   have hcw : colWidth o code = 88 := by simp [colWidth, codeWidthInt, o, tracebackOpts]
   -- whichever list of lines is numbered, the marked row is the one at the failing line's position
-  have key : ∀ (lines : List Line) (g : Line), selectedLines false o found lex code = .ok lines →
+  have key : ∀ (lines : List Line) (g : Line), selectedLines false false o found lex code = .ok lines →
       lines[lineno - (1 + ((lineno : Int) - extra - 1).toNat)]? = some g →
-      ∃ rows, numberedRows cw false o found lex code = .ok rows ∧
+      ∃ rows, numberedRows cw false false o found lex code = .ok rows ∧
         rows.filter (·.marked) = [{ num := lineno, marked := true, body := fitLine cw 88 pad (noCrop o) g }] := by
     intro lines g hlines hg
-    refine ⟨_, by simp only [numberedRows, hlines]; rfl, ?_⟩
+    have hroom : (o.wordWrap && decide (codeWidthInt o code < 1)) = false := by
+      simp [codeWidthInt, o, tracebackOpts]
+    refine ⟨_, by simp only [numberedRows, hlines, hroom, Bool.false_eq_true, if_false]; rfl, ?_⟩
     have hstart : o.startLine = 1 := rfl
     have hhl : o.highlightLines = [lineno] := rfl
     have hpad : o.pad = pad := rfl
@@ -252,11 +326,7 @@ theorem traceback_marks_failing_line (cw : Char → Nat) (lineno extra : Nat) (w
     have hselj : sel[lineno - (1 + ((lineno : Int) - extra - 1).toNat)] = l := by
       rw [List.getElem?_eq_getElem hj] at hsel; exact Option.some.inj hsel
     have hjo : lineno - (1 + ((lineno : Int) - extra - 1).toNat) < out.length := by
-      rcases Nat.lt_or_ge (lineno - (1 + ((lineno : Int) - extra - 1).toNat)) out.length with h1 | h1
-      · exact h1
-      · have := hrel.dropped _ h1 hj
-        rw [hselj] at this
-        exact absurd this hl
+      rw [hrel.length_eq]; exact hj
     have hg := hrel.shown _ hjo hj
     rw [hselj] at hg
     obtain ⟨rows, h1, h2⟩ := key out _ hsl (List.getElem?_eq_getElem hjo)
@@ -291,33 +361,33 @@ theorem persistent_cache_would_show_stale_code :
       = [["a".toList], ["a".toList]] := by
   decide
 
-/-! ## The code before the two fixes violates the statements (witnesses for the two defects; variant flags = true) -/
+/-! ## The code before the fixes violates the statements (witnesses for the three defects; variant flags = true) -/
 
 /-- The lexer every witness uses: one token holding Pygments' preprocessing (it meets the contract of its
 variant by definition). -/
 def oneToken (stripnl : Bool) : List Char → List Line := fun s => [pygPre stripnl s]
 
-def demoOpts (range : Option (Int × Int)) (hl : List Nat) : Opts :=
+def demoOpts (range : Option (Int × Int)) (hl : List Nat) (guides : Bool := false) : Opts :=
   { lineNumbers := true, startLine := 1, lineRange := range, highlightLines := hl, codeWidth := some 20, tabSize := 4,
-    wordWrap := false, indentGuides := false, maxWidth := 40, optNoWrap := false, legacyWindows := false,
+    wordWrap := false, indentGuides := guides, maxWidth := 40, optNoWrap := false, legacyWindows := false,
     asciiOnly := false, pad := false }
 
 def demoCode : List Char := "\n\nx=1\ny=2\n".toList
 
 /-- F13 (`stripnl=True`): two leading blank lines vanish; `x=1` (line 3) is shown under number 1 … -/
 theorem old_stripnl_shifts_numbers :
-    numberedRows (fun _ => 1) true (demoOpts none []) true (oneToken true) demoCode =
+    numberedRows (fun _ => 1) true true (demoOpts none []) true (oneToken true) demoCode =
       .ok [{ num := 1, marked := false, body := "x=1".toList }, { num := 2, marked := false, body := "y=2".toList }] := by
   decide
 
-/-- … so the full-strength statement fails for the as-found variant: no list of shown lines is the source lines up
+/-- … so the full-strength statement fails for that variant: no list of shown lines is the source lines up
 to trailing blank lines. -/
 theorem old_stripnl_breaks_lines_are_source_lines :
     ¬ ∃ sel, Trail 2 sel (splitNL (expandTabs 4 demoCode)) ∧
-        selectedLines true (demoOpts none []) true (oneToken true) demoCode = .ok sel := by
+        selectedLines true true (demoOpts none []) true (oneToken true) demoCode = .ok sel := by
   rintro ⟨sel, ⟨k, hk, e⟩, hs⟩
   have hsel : sel = ["x=1".toList, "y=2".toList] := by
-    have : selectedLines true (demoOpts none []) true (oneToken true) demoCode = .ok ["x=1".toList, "y=2".toList] := by decide
+    have : selectedLines true true (demoOpts none []) true (oneToken true) demoCode = .ok ["x=1".toList, "y=2".toList] := by decide
     rw [this] at hs; cases hs; rfl
   subst hsel
   have hP : splitNL (expandTabs 4 demoCode) = [[], [], "x=1".toList, "y=2".toList, []] := by decide
@@ -329,39 +399,94 @@ theorem old_stripnl_breaks_lines_are_source_lines :
 
 /-- F13 seen through a range: `line_range=(3,4)` of the same source selects nothing at all. -/
 theorem old_stripnl_range_selects_nothing :
-    numberedRows (fun _ => 1) true (demoOpts (some (3, 4)) []) true (oneToken true) demoCode = .ok [] := by
+    numberedRows (fun _ => 1) true true (demoOpts (some (3, 4)) []) true (oneToken true) demoCode = .ok [] := by
   decide
 
 /-- F13 seen through a traceback: a module with one leading blank line that raises on line 2 — no row carries the
 failing-line marker. -/
 theorem old_stripnl_traceback_unmarked :
-    (numberedRows (fun _ => 1) true (tracebackOpts 2 3 false false 100 false false false false) true (oneToken true)
+    (numberedRows (fun _ => 1) true true (tracebackOpts 2 3 false false 100 false false false false) true (oneToken true)
       "\nraise E\n".toList).map (fun rows => rows.filter (·.marked)) = .ok [] := by
   decide
 
 /-- Second defect (bare `next(tokens)`): a range starting more than one line past the end raises instead of
 selecting nothing. -/
 theorem old_skip_raises_beyond_end :
-    numberedRows (fun _ => 1) true (demoOpts (some (3, 4)) []) true (oneToken false) "x".toList
+    numberedRows (fun _ => 1) true true (demoOpts (some (3, 4)) []) true (oneToken false) "x".toList
       = .error .runtimeStopIteration := by
+  decide
+
+def gapCode : List Char := "def f():\n    return 1\n\n\n\ndef g():\n    pass\n".toList
+
+/-- Third defect (`text.split("\n")` after the text was cut at the end of the range): `line_range=(1,3)` of a source
+whose line 3 is an INTERIOR blank line shows lines 1 and 2 only … -/
+theorem old_range_drops_trailing_blank_line :
+    numberedRows (fun _ => 1) false true (demoOpts (some (1, 3)) []) true (oneToken false) gapCode =
+      .ok [{ num := 1, marked := false, body := "def f():".toList },
+           { num := 2, marked := false, body := "    return 1".toList }] := by
+  decide
+
+/-- … and `(3, 4)` — two interior blank lines — shows one row; with indent guides the same happens (the guide step
+loses the line a second time). -/
+theorem old_range_drops_trailing_blank_line_guides :
+    (numberedRows (fun _ => 1) false true (demoOpts (some (3, 4)) []) true (oneToken false) gapCode).map List.length = .ok 1 ∧
+    (numberedRows (fun _ => 1) false true (demoOpts (some (1, 3)) [] true) true (oneToken false) gapCode).map List.length = .ok 2 ∧
+    -- an empty selection under indent guides is shown as one row numbered past the end of the source
+    (numberedRows (fun _ => 1) false true (demoOpts (some (9, 12)) [] true) true (oneToken false) gapCode).map (List.map (·.num)) = .ok [9] := by
   decide
 
 /-! ## Non-vacuity: the hypotheses are met by concrete, non-trivial values; the repaired variant on the witnesses -/
 
 example : Setting (demoOpts (some (3, 4)) [3]) true (oneToken false) demoCode :=
-  ⟨by unfold Clean; decide, fun _ => rfl, rfl, fun a b h => by cases h; decide⟩
+  ⟨by unfold Clean; decide, fun _ => rfl, rfl, fun a b h => by cases h; decide, rfl, by decide⟩
 
 /-- repaired variant at the F13 witness: lines 3-4 under numbers 3-4, line 3 marked -/
-example : numberedRows (fun _ => 1) false (demoOpts (some (3, 4)) [3]) true (oneToken false) demoCode =
+example : numberedRows (fun _ => 1) false false (demoOpts (some (3, 4)) [3]) true (oneToken false) demoCode =
     .ok [{ num := 3, marked := true, body := "x=1".toList }, { num := 4, marked := false, body := "y=2".toList }] := by
   decide
 
 /-- repaired variant at the second witness: nothing selected, no error -/
-example : numberedRows (fun _ => 1) false (demoOpts (some (3, 4)) []) true (oneToken false) "x".toList = .ok [] := by
+example : numberedRows (fun _ => 1) false false (demoOpts (some (3, 4)) []) true (oneToken false) "x".toList = .ok [] := by
+  decide
+
+/-- repaired variant at the third witness: three rows, the blank line 3 under number 3 — with and without guides;
+an empty selection under guides shows nothing -/
+example : numberedRows (fun _ => 1) false false (demoOpts (some (1, 3)) []) true (oneToken false) gapCode =
+    .ok [{ num := 1, marked := false, body := "def f():".toList },
+         { num := 2, marked := false, body := "    return 1".toList },
+         { num := 3, marked := false, body := [] }] := by
+  decide
+
+example : numberedRows (fun _ => 1) false false (demoOpts (some (1, 3)) [] true) true (oneToken false) gapCode =
+    .ok [{ num := 1, marked := false, body := "def f():".toList },
+         { num := 2, marked := false, body := "│   return 1".toList },
+         { num := 3, marked := false, body := [] }] := by
+  decide
+
+example : numberedRows (fun _ => 1) false false (demoOpts (some (9, 12)) [] true) true (oneToken false) gapCode = .ok [] := by
+  decide
+
+example : srcLines gapCode = ["def f():".toList, "    return 1".toList, [], [], [], "def g():".toList, "    pass".toList] := by
+  decide
+
+/-- the measure witness is not vacuous: `Syntax("abcdef", line_numbers=True, code_width=6)` reports maximum 9 and has a row
+whose code cell is full -/
+example : (numberedRows (fun _ => 1) false false { demoOpts none [] with codeWidth := some 6 } true (oneToken false) "abcdef".toList).map
+    (List.map (·.body.length)) = .ok [6] := by
+  decide
+
+/-- styles on a concrete stream: range (2,2) of "a\nbc\n" with token styles 7 ("a\n") and 9 ("bc\n"): line 1 unstyled, line 2 style 9 -/
+example : highlightStyled false true [("a\n".toList, 7), ("bc\n".toList, 9)] "a\nbc\n".toList (some (2, 2)) =
+    .ok [('a', none), ('\n', none), ('b', some 9), ('c', some 9), ('\n', some 9)] := by
+  decide
+
+/-- `dedent`: the shown text is the dedented one, the gutter still counts the newlines of the original -/
+example : numberedRows (fun _ => 1) false false { demoOpts none [] with dedented := some "a\n b".toList } true (oneToken false) "  a\n   b".toList =
+    .ok [{ num := 1, marked := false, body := "a".toList }, { num := 2, marked := false, body := " b".toList }] := by
   decide
 
 /-- the traceback hypotheses are satisfiable (leading blank line, failing line 2) and the row is marked -/
-example : (numberedRows (fun _ => 1) false (tracebackOpts 2 3 false false 100 false false false false) true (oneToken false)
+example : (numberedRows (fun _ => 1) false false (tracebackOpts 2 3 false false 100 false false false false) true (oneToken false)
       "\nraise E\n".toList).map (fun rows => rows.filter (·.marked)) =
     .ok [{ num := 2, marked := true, body := "raise E".toList }] := by
   decide
@@ -369,7 +494,7 @@ example : (numberedRows (fun _ => 1) false (tracebackOpts 2 3 false false 100 fa
 example : (splitNL (expandTabs 4 "\nraise E\n".toList))[2 - 1]? = some "raise E".toList := by decide
 
 /-- the same frame with indent guides on, failing line indented by four spaces: the guide overdraws the first space -/
-example : (numberedRows (fun _ => 1) false (tracebackOpts 3 1 false true 100 false false false false) true (oneToken false)
+example : (numberedRows (fun _ => 1) false false (tracebackOpts 3 1 false true 100 false false false false) true (oneToken false)
       "\ndef f():\n    raise E\n".toList).map (fun rows => rows.filter (·.marked)) =
     .ok [{ num := 3, marked := true, body := "│   raise E".toList }] := by
   decide
@@ -390,7 +515,7 @@ example : renderHistory false [] [((fun _ => "a".toList), [0, 0]), ((fun _ => "\
     = [["a".toList, "a".toList], ["\nb".toList]] := by
   decide
 
-/-- a Trail with something actually missing: a source ending in a blank line -/
-example : Trail 2 ["a".toList] (splitNL "a\n\n".toList) := ⟨2, by omega, by decide⟩
+/-- a Trail with something actually missing: without a range, a source ending in a blank line -/
+example : Trail 1 ["a".toList] (srcLines "a\n\n".toList) := ⟨1, by omega, by decide⟩
 
 end RichModel.C17
